@@ -91,6 +91,7 @@ def run(ctx):
         solvers = [{}, {'solver': 'SCIPY'}, {'solver': 'CLARABEL'}, {'solver': 'SCIP'}, {'interface': 'ortools'}]
     for sp in specs:
         sp['opts']['solvers'] = solvers
+    specs = ctx.specs(specs)
     res = C.run_impl('optim', specs)
     exprs, owners = [], []
     fexprs, fowners = [], []
